@@ -3,37 +3,56 @@
 
 /// A forward-mode dual number.
 /// `v`  value; `vm` magnitude scale of `v` (sum of absolute values of the terms that produced it, >= |v|);
-/// `d`  tangent, one entry per direction allocated so far (shorter vectors are implicitly zero-padded);
-/// `m`  magnitude of the tangent (sum of absolute values of path products), same padding rule.
+/// `d`  tangent, SPARSE: entries (direction, value, magnitude) sorted by direction; absent directions are zero.
+///      The magnitude is the sum of absolute values of path products. (Leaves carry one-hot tangents, so
+///      element-wise operations on large arrays stay O(1) per element instead of O(number of directions).)
 #[derive(Clone, Debug, Default, PartialEq)]
 pub struct Dual {
     pub v: f64,
     pub vm: f64,
-    pub d: Vec<f64>,
-    pub m: Vec<f64>,
+    pub d: Vec<(u32, f64, f64)>,
 }
 
 impl Dual {
     pub fn c(v: f64) -> Dual {
-        Dual { v, vm: v.abs(), d: Vec::new(), m: Vec::new() }
+        Dual { v, vm: v.abs(), d: Vec::new() }
     }
     pub fn zero() -> Dual {
         Dual::c(0.0)
     }
     /// self += coef * x  (tangent part only); `cmag` is the magnitude used for the coefficient.
     pub fn acc_tangent(&mut self, coef: f64, cmag: f64, x: &Dual) {
-        if x.d.len() > self.d.len() {
-            self.d.resize(x.d.len(), 0.0);
-            self.m.resize(x.d.len(), 0.0);
+        if x.d.is_empty() {
+            return;
         }
-        for (i, (xd, xm)) in x.d.iter().zip(x.m.iter()).enumerate() {
-            self.d[i] += coef * xd;
-            self.m[i] += cmag * xm;
+        if self.d.is_empty() {
+            self.d = x.d.iter().map(|&(i, a, b)| (i, 0.0 + coef * a, 0.0 + cmag * b)).collect();
+            return;
         }
+        // merge two sorted lists; entries of one direction are added in the order of the calls
+        let old = std::mem::take(&mut self.d);
+        let mut out = Vec::with_capacity(old.len() + x.d.len());
+        let (mut p, mut q) = (0, 0);
+        while p < old.len() || q < x.d.len() {
+            if q >= x.d.len() || (p < old.len() && old[p].0 < x.d[q].0) {
+                out.push(old[p]);
+                p += 1;
+            } else if p >= old.len() || x.d[q].0 < old[p].0 {
+                let (i, a, b) = x.d[q];
+                out.push((i, 0.0 + coef * a, 0.0 + cmag * b));
+                q += 1;
+            } else {
+                let (i, a, b) = x.d[q];
+                out.push((i, old[p].1 + coef * a, old[p].2 + cmag * b));
+                p += 1;
+                q += 1;
+            }
+        }
+        self.d = out;
     }
     /// value, value magnitude and a linear combination of tangents
     pub fn lin(v: f64, vm: f64, terms: &[(&Dual, f64, f64)]) -> Dual {
-        let mut r = Dual { v, vm: vm.max(v.abs()), d: Vec::new(), m: Vec::new() };
+        let mut r = Dual { v, vm: vm.max(v.abs()), d: Vec::new() };
         for (x, c, cm) in terms {
             r.acc_tangent(*c, *cm, x);
         }
@@ -71,13 +90,16 @@ impl Dual {
     }
     /// drop the tangent (stop-gradient)
     pub fn detached(&self) -> Dual {
-        Dual { v: self.v, vm: self.vm, d: Vec::new(), m: Vec::new() }
+        Dual { v: self.v, vm: self.vm, d: Vec::new() }
+    }
+    fn entry(&self, i: usize) -> Option<&(u32, f64, f64)> {
+        self.d.binary_search_by_key(&(i as u32), |e| e.0).ok().map(|k| &self.d[k])
     }
     pub fn dir(&self, i: usize) -> f64 {
-        self.d.get(i).copied().unwrap_or(0.0)
+        self.entry(i).map_or(0.0, |e| e.1)
     }
     pub fn dirm(&self, i: usize) -> f64 {
-        self.m.get(i).copied().unwrap_or(0.0)
+        self.entry(i).map_or(0.0, |e| e.2)
     }
 }
 
@@ -179,13 +201,8 @@ impl T {
     /// attach fresh tangent directions dir0.. to every element (added on top of inherited tangents)
     pub fn with_fresh_dirs(mut self, dir0: usize) -> T {
         for (i, x) in self.vals.iter_mut().enumerate() {
-            let k = dir0 + i;
-            if x.d.len() <= k {
-                x.d.resize(k + 1, 0.0);
-                x.m.resize(k + 1, 0.0);
-            }
-            x.d[k] += 1.0;
-            x.m[k] += 1.0;
+            let one = Dual { v: 0.0, vm: 0.0, d: vec![((dir0 + i) as u32, 1.0, 1.0)] };
+            x.acc_tangent(1.0, 1.0, &one);
         }
         self
     }
@@ -199,7 +216,7 @@ impl T {
         self.vals.iter().fold(f64::INFINITY, |a, x| a.min(x.v))
     }
     pub fn all_finite(&self) -> bool {
-        self.vals.iter().all(|x| x.v.is_finite() && x.d.iter().all(|t| t.is_finite()))
+        self.vals.iter().all(|x| x.v.is_finite() && x.d.iter().all(|t| t.1.is_finite()))
     }
 }
 
